@@ -208,11 +208,19 @@ PROBE = textwrap.dedent('''
 
 def ast_duplicates(files: dict) -> list:
     """Names bound twice in one scope of the generated SOURCE (the import probe cannot see them: the later
-    definition silently replaces the earlier one).  Returns (problem text, originals) with the original
-    (Meta.name / metadata name) spellings of the colliding definitions."""
+    definition silently replaces the earlier one).  Class definitions, imported class names, fields and enum
+    members.  Returns (problem text, originals) with the original (Meta.name / metadata name) spellings of the
+    colliding definitions."""
     import ast
 
     out = []
+    trees = {}
+    for rel, text in files.items():
+        if rel.endswith(".py") and not rel.endswith("__init__.py"):
+            try:
+                trees[rel] = ast.parse(text)
+            except SyntaxError as ex:
+                out.append((f"{rel}: generated module is not valid Python: {ex}", []))
 
     def meta_name(cd):
         for b in cd.body:
@@ -222,29 +230,47 @@ def ast_duplicates(files: dict) -> list:
                         return a.value.value
         return cd.name
 
+    def field_orig(b):
+        """The original name of a field: metadata["name"] if the field() call carries one."""
+        v = b.value
+        if isinstance(v, ast.Call):
+            for kw in v.keywords:
+                if kw.arg == "metadata" and isinstance(kw.value, ast.Dict):
+                    for k, x in zip(kw.value.keys, kw.value.values):
+                        if isinstance(k, ast.Constant) and k.value == "name" and isinstance(x, ast.Constant):
+                            return x.value
+        return b.target.id
+
+    # the originals of every top-level class of the package, by generated name (for imported names)
+    originals: dict = {}
+    for tree in trees.values():
+        for b in tree.body:
+            if isinstance(b, ast.ClassDef):
+                originals.setdefault(b.name, []).append(meta_name(b))
+
     def scope(body, where):
         classes, fields = {}, {}
         for b in body:
             if isinstance(b, ast.ClassDef) and b.name != "Meta":
                 classes.setdefault(b.name, []).append(meta_name(b))
                 scope(b.body, f"{where}.{b.name}" if where else b.name)
+            elif isinstance(b, ast.ImportFrom) and not where and b.module and not b.module.startswith(("dataclasses", "typing", "enum", "decimal", "collections", "xsdata", "xml", "__future__")):
+                for al in b.names:
+                    classes.setdefault(al.asname or al.name, []).append(f"import:{b.module}.{al.name}")
             elif isinstance(b, ast.AnnAssign) and isinstance(b.target, ast.Name):
-                fields.setdefault(b.target.id, []).append(b.target.id)
+                fields.setdefault(b.target.id, []).append(field_orig(b))
             elif isinstance(b, ast.Assign) and where and isinstance(b.targets[0], ast.Name):
                 fields.setdefault(b.targets[0].id, []).append(b.targets[0].id)       # enum members
         for n, origs in classes.items():
             if len(origs) > 1:
-                out.append((f"{where or 'module'}: class name {n!r} is defined {len(origs)} times (for {origs})", origs))
+                real = [o for o in origs if not str(o).startswith("import:")] + (originals.get(n, []) if any(str(o).startswith("import:") for o in origs) else [])
+                out.append((f"{where or 'module'}: class name {n!r} is bound {len(origs)} times (for {origs})", real))
         for n, origs in fields.items():
             if len(origs) > 1:
-                out.append((f"{where}: field / member name {n!r} is defined {len(origs)} times", origs))
+                out.append((f"{where}: field / member name {n!r} is defined {len(origs)} times (for {origs})", origs))
 
-    for rel, text in files.items():
-        if rel.endswith(".py") and not rel.endswith("__init__.py"):
-            try:
-                scope(ast.parse(text).body, "")
-            except SyntaxError as ex:
-                out.append((f"{rel}: generated module is not valid Python: {ex}", []))
+    for tree in trees.values():
+        scope(tree.body, "")
     return out
 
 
@@ -287,10 +313,10 @@ def generation_case(ctx, kind, files, main, oname, opts, mut, traces, tag, must_
         except Exception:  # noqa: BLE001
             problems = [f"import probe crashed: {p.stderr[-600:]}"]
         dups = ast_duplicates(gen.files)
-        # F28: two classes collide only because one original name had to be rebuilt from the safe prefix
+        # F28: two classes (two fields) collide only because one original name had to be rebuilt from the safe prefix
         f28 = any("class name" in d and any(needs_safe_prefix(o) for o in origs) for d, origs in dups)
         for d, origs in dups:
-            tags = ["F28"] if "class name" in d and any(needs_safe_prefix(o) for o in origs) else []
+            tags = ["F28"] if any(needs_safe_prefix(str(o)) for o in origs) else []
             ctx.violation(f"{kind} ({oname}): {d}", {**info, "generated": {k: v[:3000] for k, v in gen.files.items()}, "finding_tags": tags})
         for pr in problems:
             # the shadowed class makes a compound field see the same type twice: a consequence of the same collision
